@@ -56,7 +56,7 @@ func only(p *Profile, kinds map[string]int) *Profile {
 // registration- and schedule-centred mixes of the properties that own those entities, so that
 // the races those mixes reach are also judged against the sequential specification.
 func ProfileForRun(prop string, run int) *Profile {
-	if prop == "C01" && run%4 == 3 {
+	if prop == "C01" && run%2 == 1 {
 		// what a notification or a claim shows of a promise is an observation too: dispatch mix
 		p := ProfileFor("C19")
 		p.Name = "C01/dispatch"
